@@ -127,4 +127,42 @@ def execStep (cfg : Cfg) (s : Retry.State) (k : Retry.Key) (t : Task) (sc : Scri
   let r := exec cfg t sc
   (Retry.step s (.finish k r.ok), r)
 
+/-! ### composition with the retry manager: the executor runs the task *stored in the table* -/
+
+/-- a worker of the retry manager executes task `k`: the dependencies are the payload column of its
+row (what `GetPending` / `GetFailed` returned), the world answers by the scripts `sc` -/
+def execStored (cfg : Cfg) (s : Retry.State) (k : Retry.Key) (sc : Scripts) : Retry.State × Option (List Digest × Result) :=
+  match Retry.payloadOf s.rows k, Retry.placeOf s.own k with
+  | some pl, some (.running _) =>
+    let r := exec cfg ⟨pl⟩ sc
+    (Retry.step s (.finish k r.ok), some (pl, r))
+  | _, _ => (s, none)
+
+structure Entry where
+  key : Retry.Key
+  deps : List Digest
+  res : Result
+  deriving DecidableEq, Repr
+
+structure CState where
+  r : Retry.State := {}
+  log : List Entry := []       -- every execution made, oldest first
+  deriving DecidableEq, Repr
+
+inductive COp where
+  | sys (o : Retry.Op)                    -- any step of the retry manager except the end of an execution
+  | run (k : Retry.Key) (sc : Scripts)    -- the end of an execution of k against an arbitrary world
+  deriving DecidableEq, Repr
+
+def cstep (cfg : Cfg) (s : CState) : COp → CState
+  | .sys (.finish _ _) => s
+  | .sys o => { s with r := Retry.step s.r o }
+  | .run k sc =>
+    match execStored cfg s.r k sc with
+    | (r', some (pl, res)) => { r := r', log := s.log ++ [⟨k, pl, res⟩] }
+    | (_, none) => s
+
+def crun (cfg : Cfg) (rcfg : Retry.Config) (ops : List COp) : CState :=
+  ops.foldl (cstep cfg) { r := Retry.init rcfg }
+
 end KrakenModel.TagRepl
